@@ -1,7 +1,7 @@
 (* Lemmas about the partition-layout model (C07): PV.Model.Layout on top of the regenerated kernels
    PV.Gen.Parallelize (par_take, par_single) and PV.Gen.Layout (coalesce_plan, unique_id, ...). *)
 From Coq Require Import String.
-From Coq Require Import ZArith NArith List Bool Lia FinFun.
+From Coq Require Import ZArith NArith List Bool Lia FinFun Permutation.
 Require Import PV.Base.Val PV.Base.PyArith PV.Gen.Parallelize PV.Gen.Layout PV.Model.Layout.
 Import ListNotations.
 Open Scope Z_scope.
@@ -816,3 +816,111 @@ Proof.
   intros Hn HN. pose proof (range_slices_spec N n Hn HN 0 ltac:(lia)) as H.
   rewrite start_0 in H by lia. exact H.
 Qed.
+
+Lemma slice_boundaries_lemma len n : 0 <= len -> 0 < n ->
+  slice_start len n 0 = 0 /\ slice_start len n n = len /\
+  (forall i j, i <= j -> slice_start len n i <= slice_start len n j) /\
+  (forall i, 0 <= i <= n -> 0 <= slice_start len n i <= len).
+Proof.
+  intros Hl Hn. split; [apply start_0; assumption|split; [apply start_n; assumption|split]].
+  - apply start_mono; assumption.
+  - apply start_bounds; assumption.
+Qed.
+
+(* scattering by a total classifier only permutes *)
+Lemma concat_insert {A} (x : A) (F : Z -> list A) (j0 : Z) (L : list Z) :
+  NoDup L -> In j0 L ->
+  Permutation (concat (map (fun j => if j0 =? j then x :: F j else F j) L)) (x :: concat (map F L)).
+Proof.
+  induction L as [|j L IH]; intros Hnd Hin; [destruct Hin|].
+  inversion Hnd as [|? ? Hj Hnd']; subst. cbn [map concat].
+  destruct (Z.eqb_spec j0 j) as [->|Hne].
+  - cbn. constructor. apply Permutation_app_head.
+    assert (E : map (fun j1 => if j =? j1 then x :: F j1 else F j1) L = map F L).
+    { apply map_ext_in. intros a Ha. destruct (Z.eqb_spec j a) as [->|_]; [contradiction|reflexivity]. }
+    now rewrite E.
+  - destruct Hin as [->|Hin]; [congruence|].
+    rewrite (IH Hnd' Hin). apply Permutation_sym, Permutation_middle.
+Qed.
+
+Lemma scatter_filter_perm {A} (g : A -> Z) n (l : list A) :
+  (forall x, In x l -> 0 <= g x < n) ->
+  Permutation (concat (map (fun j => filter (fun x => g x =? j) l) (zrange 0 n))) l.
+Proof.
+  induction l as [|x l IH]; intros Hb.
+  - cbn [filter]. induction (zrange 0 n) as [|j L IHL]; cbn; [constructor|exact IHL].
+  - cbn [filter].
+    rewrite (concat_insert x (fun j => filter (fun y => g y =? j) l) (g x) (zrange 0 n)).
+    + constructor. apply IH. intros y Hy. apply Hb. now right.
+    + apply zrange_NoDup.
+    + apply zrange_In. apply Hb. now left.
+Qed.
+
+Lemma nth_error_ext {A} (l1 l2 : list A) : (forall k, nth_error l1 k = nth_error l2 k) -> l1 = l2.
+Proof.
+  revert l2. induction l1 as [|a l1 IH]; intros [|b l2] H; try reflexivity.
+  - specialize (H 0%nat). discriminate.
+  - specialize (H 0%nat). discriminate.
+  - pose proof (H 0%nat) as H0. cbn in H0. injection H0 as ->. f_equal. apply IH. intros k. apply (H (S k)).
+Qed.
+
+Lemma partitionBy_perm_lemma f (r : rdd) n ps : 0 < n -> pairs_ok (local_iter r) ->
+  partitionBy f r n = Ok (mk_rdd ps) -> Permutation (concat ps) (local_iter r).
+Proof.
+  intros Hn Hok E.
+  destruct (partitionBy_layout_lemma f r n Hn Hok) as (ps' & E' & Hl & Hnth).
+  rewrite E in E'. injection E' as E'. apply (f_equal glom) in E'. rewrite !mk_rdd_glom in E'. subst ps'.
+  assert (Eps : ps = map (fun j => filter (sel f n j) (local_iter r)) (zrange 0 n)).
+  { apply nth_error_ext. intros k.
+    destruct (Nat.lt_ge_cases k (length ps)) as [Hk|Hk].
+    - rewrite <- (Nat2Z.id k). rewrite Hnth by lia.
+      erewrite map_nth_error; [|apply zrange_nth_error; lia]. do 2 f_equal.
+    - rewrite (proj2 (nth_error_None _ _)) by exact Hk.
+      symmetry. apply nth_error_None. rewrite map_length, zrange_length. lia. }
+  rewrite Eps.
+  set (g := fun kv => match key_of kv with Ok k => f k mod n | Err _ => 0 end).
+  assert (Ef : forall j, filter (sel f n j) (local_iter r) = filter (fun x => g x =? j) (local_iter r)).
+  { intros j. apply filter_ext_in. intros kv Hkv. destruct (Hok kv Hkv) as (k & Hk).
+    unfold sel, g. now rewrite Hk. }
+  erewrite map_ext by (intros j; apply Ef).
+  apply scatter_filter_perm. intros kv Hkv. destruct (Hok kv Hkv) as (k & Hk). unfold g. rewrite Hk.
+  apply Z.mod_pos_bound. exact Hn.
+Qed.
+
+(* ---------- error branches *)
+Lemma coalesce_zero_lemma (r : rdd) m : Z.min m (num_partitions r) = 0 -> coalesce r m = Err "ZeroDivisionError".
+Proof. intros H. unfold coalesce. rewrite H. reflexivity. Qed.
+
+Lemma coalesce_negative_lemma (r : rdd) m : m < 0 -> r <> [] -> coalesce r m = Err "IndexError".
+Proof.
+  intros Hm Hne. unfold coalesce. set (cur := num_partitions r).
+  assert (Hcur : 1 <= cur). { unfold cur, num_partitions. destruct r; [congruence|cbn [length]; lia]. }
+  destruct (Z.eqb_spec (Z.min m cur) 0) as [E|_]; [lia|].
+  unfold coalesce_plan. replace (Z.min m cur) with m by lia.
+  pose proof (Z.mod_neg_bound cur m Hm) as Hb.
+  rewrite (zrange_nil 0 (cur mod m)) by lia.
+  rewrite (zrange_nil (cur mod m)) by lia. cbn [flat_map app].
+  unfold glom. destruct r as [|[i p] r]; [congruence|]. reflexivity.
+Qed.
+
+Lemma partitionBy_empty_lemma f (r : rdd) n : local_iter r = [] ->
+  partitionBy f r n = Ok (mk_rdd (repeat [] (Z.to_nat n))).
+Proof. intros H. unfold partitionBy. rewrite H. reflexivity. Qed.
+
+Lemma partitionBy_zero_lemma f (r : rdd) kv kvs k :
+  local_iter r = kv :: kvs -> key_of kv = Ok k -> partitionBy f r 0 = Err "ZeroDivisionError".
+Proof. intros H Hk. unfold partitionBy. rewrite H. cbn [pb_scatter]. rewrite Hk. reflexivity. Qed.
+
+Lemma partitionBy_negative_lemma f (r : rdd) n kv kvs k : n < 0 ->
+  local_iter r = kv :: kvs -> key_of kv = Ok k -> partitionBy f r n = Err "IndexError".
+Proof.
+  intros Hn H Hk. unfold partitionBy. rewrite H. cbn [pb_scatter]. rewrite Hk.
+  destruct (Z.eqb_spec n 0); [lia|].
+  replace (Z.to_nat n) with 0%nat by lia. cbn [repeat length].
+  unfold py_idx. cbn [Z.of_nat]. rewrite Z.opp_0.
+  destruct (partition_index (f k) n) as [|q|q]; reflexivity.
+Qed.
+
+Lemma partitionBy_not_a_pair_lemma f (r : rdd) n kv kvs e :
+  local_iter r = kv :: kvs -> key_of kv = Err e -> partitionBy f r n = Err e.
+Proof. intros H Hk. unfold partitionBy. rewrite H. cbn [pb_scatter]. rewrite Hk. reflexivity. Qed.
